@@ -74,10 +74,10 @@ def whole_records(f, k):
 
 def make_files(rng, ctx):
     files = []
-    n = ctx.pick(1, 3)
+    n = ctx.pick(1, 6)
     for i in range(n):
         evs = gen.gen_scenario_events(rng, n_scenarios=rng.choice((4, 6)))
-        recs = gen.events_to_records(evs)[:ctx.pick(28, 40)]
+        recs = gen.events_to_records(evs)[:ctx.pick(28, 56)]
         entries = gen.threadmap_for(evs)
         pad = rng.choice((0, 8, 64, 100))
         files.append({'kind': 'v2', 'entries': entries, 'pad': pad, 'records': recs,
@@ -87,10 +87,10 @@ def make_files(rng, ctx):
         f3['label'] = f'v3 scenario content chunks={[len(c) for c in f3["spec"].chunks]}'
         files.append(f3)
     # raw-bytes files: arbitrary record content (event pipelines only make sense, traces still must be a prefix)
-    f = gen.gen_v2(rng, m=ctx.pick(6, 12), n=2)
+    f = gen.gen_v2(rng, m=ctx.pick(6, 24), n=2)
     f['label'] = 'v2 arbitrary record bytes'
     files.append(f)
-    f = gen.gen_v3(rng, m=ctx.pick(6, 12), n=2)
+    f = gen.gen_v3(rng, m=ctx.pick(6, 24), n=2)
     f['label'] = 'v3 arbitrary record bytes, random blocks'
     files.append(f)
     return files
@@ -136,7 +136,10 @@ def cli_checks(res, f, fi, offsets, tmpdir, fulls):
     runner = CliRunner()
     path = os.path.join(tmpdir, f'f{fi}.bin')
     api = {'kevents': 'formatted_kevents', 'traces': 'formatted_traces'}
-    for cmd in (['kevents', '--show-tid'], ['traces', '--no-color', '--show-tid'], ['traces']):
+    cmds = [['kevents', '--show-tid'], ['traces', '--no-color', '--show-tid'], ['traces'], ['callstacks']]
+    if f['kind'] == 'v3':
+        cmds.append(['logs'])
+    for cmd in cmds:
         with open(path, 'wb') as fd:
             fd.write(f['data'])
         r = runner.invoke(cli, cmd[:1] + [path] + cmd[1:])
